@@ -141,6 +141,7 @@ class Interp:
         self.unroll = unroll
         self.inline = inline or (lambda callee: False)
         self.npaths = 0
+        self.visited = set()        # id() of every HIR node this interpreter evaluated on some path (see driver.never_taken)
 
     # ------------------------------------------------------------------ entry
     def run(self, root=None, env=None, heap=None):
@@ -234,6 +235,7 @@ class Interp:
 
     def ev(self, e, st):
         k = e['k']
+        self.visited.add(id(e))
         sp = e.get('sp')
         if sp and len(sp) > 5 and sp[5].rsplit('::', 1)[-1] in self.LOG_MACROS and not getattr(self, 'keep_logging', False):
             # the expansion of a logging macro: level tests and formatting are not part of the behaviour any rule reads
